@@ -6,7 +6,7 @@
 #   tools/build.sh all
 # Everything is written under /verif/.build (git-ignored) or next to the .v sources.
 set -u
-V=/verif
+V="${VERIF_ROOT:-$(cd "$(dirname "$0")/.." && pwd)}"
 B=$V/.build
 mkdir -p "$B"
 export CARGO_NET_OFFLINE=true
@@ -25,9 +25,9 @@ build_coq() {
 build_driver() {
   mkdir -p "$B/ocaml" && cd "$B/ocaml" || return 1
   timeout 600 coqc -Q "$V/coq/theories" Utp -o "$B/ocaml/Extract.vo" "$V/coq/theories/Extract/Extract.v" >"$B/extract.log" 2>&1 || { cat "$B/extract.log"; return 1; }
-  cp "$V"/driver/*.ml "$B/ocaml/" || return 1
-  timeout 600 ocamlfind ocamlopt -O2 -w -a -o "$B/modelrun" model.mli model.ml zutil.ml modelrun.ml 2>"$B/ocaml_build.log" \
-   || timeout 600 ocamlfind ocamlopt -w -a -o "$B/modelrun" model.mli model.ml zutil.ml modelrun.ml 2>"$B/ocaml_build.log" \
+  rm -f "$B"/ocaml/c_*.ml; cp "$V"/driver/*.ml "$B/ocaml/" || return 1
+  timeout 600 ocamlfind ocamlopt -O2 -w -a -o "$B/modelrun" model.mli model.ml zutil.ml $(ls c_*.ml | sort) modelrun.ml 2>"$B/ocaml_build.log" \
+   || timeout 600 ocamlfind ocamlopt -w -a -o "$B/modelrun" model.mli model.ml zutil.ml $(ls c_*.ml | sort) modelrun.ml 2>"$B/ocaml_build.log" \
    || { cat "$B/ocaml_build.log"; return 1; }
 }
 
